@@ -76,7 +76,7 @@ def main(argv=None):
         rule += ("; call order: every prelude of library calls from the menu (group x operation x {structurally sparse numeric, dense numeric, symbolic} input), depth %d, each "
                  "followed by the probe battery in a process forked from a fresh interpreter (%d preludes); a state = one prelude" % (2 if tier == "thorough" else 1, len(order.menu(tier))))
     return core.finish(pid, tier, seed, mod.LEVEL, total, t0, mod.REPLAY, rule, mod.ASSUMPTIONS,
-                       extra=extra, exhaustive=not total.counters.get("capped", 0))
+                       extra=extra, exhaustive=not (total.counters.get("capped", 0) or total.counters.get("thread_schedules_capped", 0) or total.counters.get("capped_at_runs", 0)))
 
 
 if __name__ == "__main__":
